@@ -6,6 +6,7 @@ package main
 // three-valued logic for NULL.
 
 import (
+	"go/token"
 	"fmt"
 	"hash/fnv"
 	"strings"
@@ -628,7 +629,10 @@ func (g *GhostDB) execInsert(st *State, stmt *SQLStmt, t *Table, base *sqlEnv, s
 		old := g.rowAt(st, pre, key)
 		exists := rowPresent(t.Name, old)
 		if !stmt.HasConflict {
-			// a conflict makes the statement fail; on the success path there was none
+			// a conflict makes the statement fail, and with it every submission of the batch: "create only
+			// if absent" is a 0-row answer, not an error. Without a conflict clause the statement is only
+			// acceptable where the row provably does not exist.
+			g.x.oblige(st, "sql", fmt.Sprintf("INSERT INTO %s has no ON CONFLICT clause: a row that already exists makes the statement (and the whole batch) fail instead of reporting 0 rows", t.Name), Not(exists), token.NoPos, g.x.sqlProps)
 			st.assume(Not(exists))
 		} else if stmt.ConflictCol != t.Key {
 			base.fail("ON CONFLICT(%s) is not the key column %s", stmt.ConflictCol, t.Key)
